@@ -99,4 +99,29 @@ theorem scan_blank (r : Cursor) (q q' : Pos) (c : Char) (t : List (Char × Pos))
   · next h => exact absurd h hce
   · rfl
 
+/-- `ParseIdent` when, after one whitespace lexeme, the scanner is at an identifier. -/
+theorem parseIdent_after_blank (s : PState) (name : Str) (hn : s.n = 0)
+    (hws : (scan s.r).1.tok = .WS) (hid : (scan (scan s.r).2).1.tok = .IDENT)
+    (hlit : (scan (scan s.r).2).1.lit = name) :
+    ∃ s', parseIdent.run s = .ok (name, s') ∧ s'.r = (scan (scan s.r).2).2 ∧ s'.n = 0 := by
+  refine ⟨{ s with r := (scan (scan s.r).2).2, buf := ((scan (scan s.r).2).1 :: ((scan s.r).1 :: s.buf).take 3).take 3 },
+    ?_, rfl, hn⟩
+  unfold parseIdent
+  rw [P.run_bind _ _ s _ _ (scanIW_skip_ws s hn hws (by rw [hid]; decide) (by rw [hid]; decide) (by rw [hid]; decide))]
+  simp [hid, hlit, StateT.run, pure, StateT.pure, Except.pure]
+
+/-- The first rune of a bare identifier is no blank, not NUL, not CR. -/
+theorem identFirst_not_blank {c : Char} (h : isIdentFirstChar c = true) :
+    isWhitespace c = false ∧ c ≠ eofRune ∧ c ≠ '\r' := by
+  have hn : 65 ≤ c.toNat := by
+    unfold isIdentFirstChar isLetter at h
+    simp only [Bool.or_eq_true, Bool.and_eq_true, decide_eq_true_eq, beq_iff_eq] at h
+    omega
+  refine ⟨?_, ?_, ?_⟩
+  · unfold isWhitespace
+    simp only [Bool.or_eq_false_iff, beq_eq_false_iff_ne, ne_eq]
+    omega
+  · intro he; rw [he] at hn; exact absurd hn (by decide)
+  · intro he; rw [he] at hn; exact absurd hn (by decide)
+
 end InfluxQL
